@@ -160,6 +160,9 @@ pub fn drive_fuzz(ctx: &Ctx, target: &'static str, runs: u64) {
     }
     let artifacts = root.join("fuzz").join("artifacts").join(target);
     let before: std::collections::BTreeSet<_> = std::fs::read_dir(&artifacts).map(|d| d.filter_map(|e| e.ok().map(|e| e.path())).collect()).unwrap_or_default();
+    // 8 parallel libFuzzer jobs share the corpus; each executes runs/8 inputs
+    let jobs = 8u64;
+    let per_job = (runs / jobs).max(1);
     let out = Command::new("cargo")
         .current_dir(root.join("harness"))
         .env("CARGO_NET_OFFLINE", "true")
@@ -169,7 +172,9 @@ pub fn drive_fuzz(ctx: &Ctx, target: &'static str, runs: u64) {
         .arg(target)
         .arg(&corpus)
         .arg("--")
-        .arg(format!("-runs={}", runs))
+        .arg(format!("-runs={}", per_job))
+        .arg(format!("-jobs={}", jobs))
+        .arg(format!("-workers={}", jobs))
         .arg(format!("-seed={}", (ctx.seed % 0x7fff_ffff).max(1)))
         .args(["-len_control=0", "-max_len=4096", "-timeout=30", "-rss_limit_mb=4096", "-print_final_stats=1"])
         .output();
@@ -186,10 +191,21 @@ pub fn drive_fuzz(ctx: &Ctx, target: &'static str, runs: u64) {
         eprintln!("fuzz target build failed (infrastructure, not a violation)");
         std::process::exit(2);
     }
-    let done = log
-        .lines()
-        .find_map(|l| l.strip_prefix("stat::number_of_executed_units:").map(|x| x.trim().parse::<u64>().unwrap_or(0)))
-        .unwrap_or(0);
+    // per-job logs fuzz-<n>.log are written to the working directory of the fuzzer
+    let mut done = 0u64;
+    let mut job_logs = String::new();
+    for j in 0..jobs {
+        let lp = root.join("harness").join(format!("fuzz-{}.log", j));
+        if let Ok(t) = std::fs::read_to_string(&lp) {
+            done += t
+                .lines()
+                .find_map(|l| l.strip_prefix("stat::number_of_executed_units:").map(|x| x.trim().parse::<u64>().unwrap_or(0)))
+                .unwrap_or(0);
+            job_logs.push_str(&t.lines().rev().take(15).collect::<Vec<_>>().into_iter().rev().collect::<Vec<_>>().join("\n"));
+            let _ = std::fs::remove_file(&lp);
+        }
+    }
+    let log = format!("{}\n{}", log, job_logs);
     let after: std::collections::BTreeSet<_> = std::fs::read_dir(&artifacts).map(|d| d.filter_map(|e| e.ok().map(|e| e.path())).collect()).unwrap_or_default();
     let new: Vec<_> = after.difference(&before).cloned().collect();
     let subs = subs_for(&ctx.property);
